@@ -2,15 +2,75 @@
 NOT_APPLICABLE = {}
 NOTES = ("All checks execute the real grenad code built from /repo's working tree (path dependency, --cfg grenad_verif) "
          "on every member of an explicitly bounded space and compare with a reference model written in the harness; "
-         "see DESIGN.md. Exit 0 = held, 1 + VIOLATION line = violation, other = machinery failure.")
+         "see DESIGN.md. Exit 0 = held, 1 + VIOLATION line = violation, other = machinery failure. "
+         "Not claimed inside otherwise claimed properties: rayon-internal thread schedules (C07: pool sizes are sampled and labelled so), "
+         "API-level entries above 2^28+1 bytes (C14).")
+ALL_IDS = ["C%02d" % i for i in range(1, 19)]
 ENGINES = [
-    {"name": "vchecks", "path": "harness/vchecks", "serves_properties": ["C03"],
-     "kind_free_text": "Rust binary: explicit-state BFS closure over real ReaderCursor/Sorter objects (E1), bounded-exhaustive enumeration against a BTreeMap-style model and an independent decoder (E2), deviation-bounded I/O schedule and fault enumeration (E3), full-domain enumeration (E4)"},
-    {"name": "vlib", "path": "harness/vlib", "serves_properties": [],
-     "kind_free_text": "grenad-free support library: independent V1/V2 decoder, reference models, input families, scheduled I/O objects, explorers, evidence/replay writers"},
+    {"name": "vchecks", "path": "harness/vchecks", "serves_properties": ALL_IDS,
+     "kind_free_text": "Rust binary: explicit-state BFS closure over real ReaderCursor/Sorter objects (E1: C03, C08, C16, C17), bounded-exhaustive enumeration against a BTreeMap-style model and an independent decoder (E2), deviation-bounded I/O schedule and single-fault enumeration (E3: C11, C12), full-domain enumeration (E4: C14)"},
+    {"name": "vlib", "path": "harness/vlib", "serves_properties": ALL_IDS,
+     "kind_free_text": "grenad-free support library: independent V1/V2 decoder and trailer predicate, reference models, input families, scheduled I/O objects, deviation-bounded explorer, checking global allocator, evidence/replay writers"},
+    {"name": "vc17", "path": "harness/vchecks/src/bin/vc17.rs", "serves_properties": ["C17"],
+     "kind_free_text": "second binary of vchecks with the checking global allocator installed (native part of C17)"},
+    {"name": "vmiri", "path": "harness/vmiri", "serves_properties": ["C17"],
+     "kind_free_text": "self-contained scenario runner executed under Miri (cargo +nightly miri run) in 16 partitions; Miri is the UB monitor, the enumeration decides"},
 ]
 
+MODEL = "Trusted: the harness's reference model (sorted vector / BTreeMap) and the enumeration bounds printed in the evidence; third-party codec crates are trusted to round-trip."
+
+chk("C01", "model_checking", "bounded-exhaustive enumeration of entry-shape sequences x layout grid x codecs on the real Writer/Reader vs the inserted vector",
+    "Every file of a finite population (all entry-shape sequences up to n over {empty,1 B,600 B} keys x {0,300,1100 B} values x all 224 layouts; x every codec; deep and dense families) is written and read back by the real code, 6 scans each, and compared with the inserted vector. Exhaustive within the stated bounds, which reach every block-cut / index-cut / offset-slot composition the writer's structure allows.",
+    MODEL, "DESIGN.md 4 C01")
+chk("C02", "model_checking", "bounded-exhaustive enumeration of files x every probe equivalence class x {GE,LE,EQ} x {fresh,reset,clone} vs BTreeMap-style model",
+    "For every file of the population and every probe class (each stored key, each gap, before-first, after-last, plus prefix/extension variants) each seek kind is executed on a fresh, a reset and a cloned real cursor and compared with the model's ceiling/floor/match.",
+    MODEL, "DESIGN.md 4 C02")
 chk("C03", "model_checking", "explicit-state BFS to closure over real cursor states (hook fingerprint dedup) vs sorted-vector model",
     "Every reachable (model position, cursor fingerprint) state of the real ReaderCursor on each listed file x every operation of the alphabet is executed on a clone and compared with the reference model; the search runs to closure, so the verdict covers operation histories of unbounded length over the alphabet and files listed in the evidence.",
     "Trusted: the harness's sorted-vector model; soundness of state deduplication rests on the fingerprint hook exposing every field the cursor's behaviour depends on (argued in DESIGN.md C03); files and probe alphabet are the stated finite lists.",
     "DESIGN.md 4 C03")
+chk("C04", "model_checking", "bounded-exhaustive enumeration of files x all bound pairs (3 kinds x class representatives)^2 x 2 directions vs filtered model",
+    "All (start, end) bound pairs over one representative per equivalence class, with no start <= end assumption, forward and reverse, on every file of the population; iteration up to the first None compared with the model filtered by both bounds.",
+    MODEL, "DESIGN.md 4 C04")
+chk("C05", "model_checking", "bounded-exhaustive enumeration of key subsets x all prefixes over a 3-byte alphabet x 2 directions vs starts_with filter",
+    "All key subsets (size <= m) of the 40 strings of length <= 3 over {00,7F,FF} x every prefix string of length <= 3 (+ length-4 extensions) x forward/reverse, in single- and multi-block layouts; completeness and order are checked, not only soundness.",
+    MODEL, "DESIGN.md 4 C05")
+chk("C06", "model_checking", "bounded-exhaustive enumeration of k <= 3/4 sources x all key subsets x source layouts, recorded merge-call log vs union map",
+    "All source lists up to k sources, each any subset of a 4-key universe in one of 3 file layouts, two merge functions; the recorded merge calls (key, ordered values, count) and the streamed / written output are compared with the union map. Because the merger cannot inspect the merge function, the call log decides the property for every deterministic merge function.",
+    MODEL, "DESIGN.md 4 C06")
+chk("C07", "model_checking", "bounded-exhaustive enumeration of insert sequences x spill-relevant settings x 3 extraction paths on the real Sorter vs ordered multimap",
+    "All insert sequences up to length n over 3 keys x 4 value sizes (empty to larger than the buffer) x the full product of budget, reallocation, initial capacity, max chunks, stable/unstable (made reachable at byte scale by the hook) x streaming / writing / external merge of chunk cursors; pass-through settings crossed with all shorter sequences; real-constant and parallel-sort groups. Rayon's internal schedules are sampled (pool sizes), not enumerated, and are not part of the exhaustive claim.",
+    MODEL + " The scaling hook only overrides two constants per thread; a hook-free group binds it to the shipped thresholds.", "DESIGN.md 4 C07")
+chk("C08", "model_checking", "explicit-state BFS to closure over the real Sorter's bookkeeping state (hook) under a size alphabet, invariants on every transition",
+    "For every configuration in the grid the set of reachable bookkeeping states under entry sizes <= T/4 is closed; on every transition the volume inserted since the last spill, the number of live chunks (instrumented creator, Drop counting) and chunk provenance are checked. Closure means the bound holds for insert sequences of unbounded length over the alphabet.",
+    "Trusted: dedup soundness (spill decision reads only the fingerprinted numbers; argued in DESIGN.md C08); hook-free runs at the real 10 MiB minimum tie the scaled constants to the shipped ones.", "DESIGN.md 4 C08")
+chk("C09", "model_checking", "bounded-exhaustive enumeration of files decoded by an independent decoder and cross-read/written with frozen grenad 0.4.7",
+    "Every file of the C01 population is decoded byte-for-byte by a decoder that shares no code with grenad (length prefixes, varints, offset tables, tree from the trailer's root, trailer), read by grenad 0.4.7, and the 0.4.7 writer's bytes are read by the current reader and the independent decoder.",
+    "Trusted: the independent decoder in vlib::fmt (written from the format statement), grenad 0.4.7 from the cargo cache, codec crates.", "DESIGN.md 4 C09")
+chk("C10", "model_checking", "bounded-exhaustive enumeration of V1-re-trailed files x all query batteries vs the V2 twin",
+    "Every index_levels = 0 file of the population is re-trailed into V1 by the harness's own encoder; version, count, codec and every scan/seek/range/prefix query must equal the V2 twin result-for-result.",
+    MODEL + " V1 files are produced by the harness (no V1 writer exists in the tree).", "DESIGN.md 4 C10")
+chk("C11", "model_checking", "deviation-bounded exhaustive exploration of per-call I/O answer schedules (short transfers, Interrupted) on the real code vs the all-default run",
+    "Every schedule with <= d non-default answers (1 byte, half, len-1, Interrupted) at any write/read call of each scenario (writer, reader/iterators, merger, sorter over scheduled chunk storage) is executed and every public result and sink byte stream compared with the reference run; plus uniform adversarial schedules. d = 1 quick, d = 2 thorough.",
+    "Trusted: the scheduled in-memory file (vlib::sio); determinism is asserted (reference run twice, prefix divergence is a hard error).", "DESIGN.md 4 C11")
+chk("C12", "fault_enumeration", "exhaustive single-fault enumeration over every component call (write/flush/read/seek/create/merge) x error kinds on the real code",
+    "For every scenario and every k up to the number of component calls of the fault-free run, the k-th call fails with each error kind; the public call in progress must return the matching Err, earlier calls must be unaffected, no panic, no success. Thorough repeats this under 1-byte and interrupted transfer schedules.",
+    "Trusted: the scheduled components; behaviour after an Err is unspecified and not explored.", "DESIGN.md 4 C12")
+chk("C13", "model_checking", "exhaustive enumeration of crash points (all truncations), single-byte trailer corruptions and all short byte strings vs an independent trailer predicate",
+    "Every prefix of each finished file (the crash states of an append-only writer), every single-byte corruption of the trailer, all 16.8 M byte strings of length <= 3 and a magic x codec x filler product for lengths 4..=40 are opened under catch_unwind and compared with the independent acceptance predicate.",
+    "Trusted: vlib::fmt::parse_trailer (20 lines, written from the statement).", "DESIGN.md 4 C13")
+chk("C14", "model_checking", "full-domain enumeration of all 2^32 lengths through the length codec (hook re-export) vs own LEB128, plus boundary-length entries through the API",
+    "All 2^32 values are encoded and decoded in three contexts and compared with the harness's LEB128; entries with key/value lengths around 2^7, 2^14, 2^21 (2^28 thorough) go through Writer, Reader and the independent decoder.",
+    "Trusted: vlib::fmt LEB128. API-level 2^32-1 byte entries are not run.", "DESIGN.md 4 C14")
+chk("C15", "model_checking", "bounded-exhaustive enumeration of files x all block sizes; size rule checked on every block recovered by the independent decoder",
+    "For every file of the C01 population (all block-size settings incl. the clamped ones) every data block and every index block >= 2 levels below the root is checked: without its last entry it is smaller than B, and all but the last of its level reach B.",
+    "Trusted: the independent decoder's layout.", "DESIGN.md 4 C15")
+chk("C16", "model_checking", "explicit-state BFS to closure over real cursor states with a counting source: block loads per operation; growth family over file sizes",
+    "For every reachable cursor state x every operation the number of block loads of that one call is counted on an instrumented source and bounded by 2*(levels+2); a growth family (n up to 60000) shows the maximum is independent of n; open reads only the trailer.",
+    "Trusted: the counting source; dedup soundness as in C03.", "DESIGN.md 4 C16")
+chk("C17", "model_checking", "explicit-state BFS over sorter bookkeeping states with a state-relative size menu under a checking allocator, plus enumerated scenarios executed under Miri",
+    "Every reachable bookkeeping state (below a stated growth cap) x every size class (empty, 1 byte, exact fit, one more, one doubling, several doublings) is executed natively under a guard-band / layout-checking / poisoning allocator with overflow checks and compared with the model; size sequences and read-path scenarios are executed under Miri. The UB monitors judge each execution; the enumeration makes it exhaustive within the bounds.",
+    "Trusted: Miri (Stacked Borrows, leak check) and the checking allocator as monitors; zstd (FFI) is not run under Miri; the claim is per enumerated execution.", "DESIGN.md 4 C17")
+chk("C18", "model_checking", "bounded-exhaustive enumeration of all insert sequences (sorted, duplicate, descending) x layouts under catch_unwind; per-block order from an independent block walk",
+    "All insert sequences up to length n over 6 keys x 2 value sizes x interval x index levels: either the writer panics or every emitted block, data and index alike, is strictly ascending; ascending sequences must not panic. All three outcomes occur and are counted.",
+    "Trusted: the independent block walk.", "DESIGN.md 4 C18")
